@@ -2704,4 +2704,681 @@ theorem protoWalk_spec (σ : FnM.St) (p : Nat) : ∀ (n x : Nat),
             simp only [Option.bind_some] at this
             exact this
 
+/-! ## a first evaluator simulation: read-only identifier expressions -/
+
+/-- the read-only, allocation-free, call-free fragment: literals, `this`, identifiers, + - < === !, typeof, (0, e), log(e) -/
+def ro : Fn.FE → Bool
+  | .lit _ => true
+  | .this => true
+  | .var _ => true
+  | .add a b => ro a && ro b
+  | .sub a b => ro a && ro b
+  | .lt a b => ro a && ro b
+  | .seq a b => ro a && ro b
+  | .not a => ro a
+  | .typeof a => ro a
+  | .val a => ro a
+  | .log a => ro a
+  | _ => false
+
+/-- the identifiers of such an expression -/
+def idents : Fn.FE → List String
+  | .var x => [x]
+  | .add a b => idents a ++ idents b
+  | .sub a b => idents a ++ idents b
+  | .lt a b => idents a ++ idents b
+  | .seq a b => idents a ++ idents b
+  | .not a => idents a
+  | .typeof a => idents a
+  | .val a => idents a
+  | .log a => idents a
+  | _ => []
+
+/-- otto's class strings agree with the class data (`Function` ⇔ callable data, `Error`, `Arguments`) -/
+def ClsWF (σ : FnM.St) : Prop :=
+  ∀ a o, σ.obj? a = some o →
+    (o.cls == "Function") = Fn.isFnKind (absKind o.val) ∧
+    (o.cls == "Error") = (match o.val with | .error _ => true | _ => false) ∧
+    (o.cls == "Arguments") = (match o.val with | .arguments .. => true | _ => false)
+
+/-- everything the read-only simulation needs of a state; none of it mentions the host log -/
+structure ROInv (σ : FnM.St) (xs : List String) : Prop where
+  vis : ∀ x ∈ xs, Visible σ x
+  wf0 : WF0 σ
+  nap : NoArgsProto σ
+  aw : ArgsWF σ
+  ew : ErrWF σ
+  sr : StashReadable σ
+  cls : ClsWF σ
+
+theorem getPropertyP_trace (σ : FnM.St) (t : List String) (x : String) : ∀ n a,
+    getPropertyP { σ with trace := t } n a x = getPropertyP σ n a x := by
+  intro n; induction n with
+  | zero => intro a; rfl
+  | succ n ih =>
+    intro a
+    simp only [getPropertyP]
+    have h1 : ownP { σ with trace := t } a x = ownP σ a x := rfl
+    have h2 : ({ σ with trace := t } : FnM.St).obj? a = σ.obj? a := rfl
+    rw [h1, h2]
+    cases ownP σ a x with
+    | some p => rfl
+    | none =>
+      cases σ.obj? a with
+      | none => rfl
+      | some o => cases hq : o.proto with
+        | none => simp [hq]
+        | some q => simp only [hq]; exact ih q
+
+theorem getP_trace (σ : FnM.St) (t : List String) (a : Nat) (x : String) : getP { σ with trace := t } a x = getP σ a x := by
+  unfold getP
+  have h2 : ({ σ with trace := t } : FnM.St).obj? a = σ.obj? a := rfl
+  have h3 : ({ σ with trace := t } : FnM.St).heap.length = σ.heap.length := rfl
+  rw [h2, h3, getPropertyP_trace]
+  rfl
+
+theorem ROInv.trace {σ : FnM.St} {xs : List String} (h : ROInv σ xs) (t : List String) : ROInv { σ with trace := t } xs :=
+  ⟨h.vis, h.wf0, h.nap, h.aw, fun a o n ho hv => by rw [getP_trace]; exact h.ew a o n ho hv, h.sr, h.cls⟩
+
+theorem ROInv.mono {σ : FnM.St} {xs ys : List String} (h : ROInv σ xs) (hs : ∀ y ∈ ys, y ∈ xs) : ROInv σ ys :=
+  ⟨fun y hy => h.vis y (hs y hy), h.wf0, h.nap, h.aw, h.ew, h.sr, h.cls⟩
+
+theorem tokV_spec (σ : FnM.St) (v : Fn.V) (hc : ClsWF σ) (hew : ErrWF σ) :
+    FnM.tokV v σ = .ok (Fn.tokV (absSt σ) v) σ := by
+  cases v with
+  | ref a =>
+    simp only [FnM.tokV, Fn.tokV, bind_run, getSt_run, absSt_obj]
+    cases ho : σ.obj? a with
+    | none => rfl
+    | some o =>
+      obtain ⟨h1, h2, h3⟩ := hc a o ho
+      simp only [Option.map_some]
+      have hk : (absObj o).kind = absKind o.val := rfl
+      rw [hk]
+      cases hv : o.val with
+      | none => rw [hv] at h1 h2 h3; simp [absKind, Fn.isFnKind] at h1 h2 h3; simp [h1, h2, h3, absKind]
+      | nodeFn nd st => rw [hv] at h1; simp [absKind, Fn.isFnKind] at h1; simp [h1, absKind]
+      | bindFn t th as => rw [hv] at h1; simp [absKind, Fn.isFnKind] at h1; simp [h1, absKind]
+      | native nm => rw [hv] at h1; simp [absKind, Fn.isFnKind] at h1; simp [h1, absKind]
+      | arguments ipn st => rw [hv] at h1 h2 h3; simp [absKind, Fn.isFnKind] at h1 h2 h3; simp [h1, h2, h3, absKind]
+      | string s => rw [hv] at h1 h2 h3; simp [absKind, Fn.isFnKind] at h1 h2 h3; simp [h1, h2, h3, absKind]
+      | error nm =>
+        rw [hv] at h1 h2 h3; simp [absKind, Fn.isFnKind] at h1 h2 h3
+        have := hew a o nm ho hv
+        simp [h1, h2, absKind, objGet_run, this, Fn.toStr]
+  | _ => rfl
+
+/-- the execution context FnSpec threads, read off otto's current scope -/
+def ctxOf (sc : FnM.Scope) : Fn.Ctx := { env := sc.lexical, venv := sc.variable_, this := .ref sc.this }
+
+/-- GetValue of the value of an expression -/
+def evalV (n : Nat) (e : Fn.FE) : FnM.M Fn.V := FnM.evalE n e >>= FnM.resolve
+
+/-- the outcome of a read-only expression: out of fuel, or the same value / the same error on both sides, with at
+    most the host log extended -/
+def ROSim (n : Nat) (e : Fn.FE) (sc : FnM.Scope) (σ : FnM.St) : Prop :=
+  evalV n e σ = .fuel ∨
+  (∃ v t, evalV n e σ = .ok v { σ with trace := t } ∧
+      Fn.evalE n e (ctxOf sc) (absSt σ) = .ok v (absSt { σ with trace := t })) ∨
+  (∃ nm t, evalV n e σ = .throw (.err nm) { σ with trace := t } ∧
+      Fn.evalE n e (ctxOf sc) (absSt σ) = Fn.throwErr (absSt { σ with trace := t }) nm)
+
+theorem self_trace (σ : FnM.St) : ({ σ with trace := σ.trace } : FnM.St) = σ := rfl
+
+theorem ro_var (n : Nat) (x : String) (sc : FnM.Scope) (rest : List FnM.Scope) (σ : FnM.St) (xs : List String)
+    (hx : x ∈ xs) (hI : ROInv σ xs) (hsc : σ.scopes = sc :: rest) : ROSim (n+1) (.var x) sc σ := by
+  have hv := hI.vis x hx
+  have hres := resolve_spec σ x hv hI.wf0 (σ.stashes.length + 1) sc.lexical
+  simp only [ROSim, evalV, FnM.evalE, bind_run, curScope_run σ sc rest hsc, stashFuel_run, hres, pure_run, FnM.resolve, Fn.evalE,
+    ctxOf, absSt_envs_length]
+  cases hr : Fn.envResolve (absSt σ) (σ.stashes.length + 1) sc.lexical x with
+  | none =>
+    right; right
+    exact ⟨"ReferenceError", σ.trace, rfl, rfl⟩
+  | some j =>
+    have hg := getValue_ident_spec σ x hv hI.wf0 hI.nap hI.aw hI.ew hI.sr j
+    simp only [refOf]
+    cases hm : FnM.refGetValue (FnM.newReference σ j x) σ with
+    | fuel => left; rfl
+    | ok v σ' =>
+      rw [hm] at hg
+      simp only [absR] at hg
+      -- reading does not change the state
+      have hσ : σ' = σ := by
+        cases hs : σ.stash? j with
+        | none => simp [FnM.newReference, hs, FnM.refGetValue, FnM.getBinding] at hm; exact hm.2.symm
+        | some st =>
+          cases st with
+          | obj outer o =>
+            simp only [FnM.newReference, hs, FnM.refGetValue, objGet_run] at hm
+            cases hm; rfl
+          | dcl outer ps =>
+            simp only [FnM.newReference, hs, FnM.refGetValue, FnM.getBinding, bind_run, getSt_run, dclGetBinding_run] at hm
+            cases hm; rfl
+          | fn outer ps ar =>
+            simp only [FnM.newReference, hs, FnM.refGetValue, FnM.getBinding, bind_run, getSt_run, dclGetBinding_run] at hm
+            cases hm; rfl
+      subst hσ
+      right; left
+      exact ⟨v, σ'.trace, rfl, hg.symm⟩
+    | throw t σ' =>
+      -- a resolved identifier reference never throws on GetValue
+      exfalso
+      cases hs : σ.stash? j with
+      | none => simp [FnM.newReference, hs, FnM.refGetValue, FnM.getBinding] at hm
+      | some st =>
+        cases st with
+        | obj outer o => simp [FnM.newReference, hs, FnM.refGetValue, objGet_run] at hm
+        | dcl outer ps => simp [FnM.newReference, hs, FnM.refGetValue, FnM.getBinding, dclGetBinding_run] at hm
+        | fn outer ps ar => simp [FnM.newReference, hs, FnM.refGetValue, FnM.getBinding, dclGetBinding_run] at hm
+
+theorem evalV_bin (n : Nat) (a b : Fn.FE) (f : Fn.V → Fn.V → Fn.V) (e : Fn.FE)
+    (he : FnM.evalE (n+1) e = (do let lv ← FnM.resolve (← FnM.evalE n a); let rv ← FnM.resolve (← FnM.evalE n b); pure (FnM.MV.val (f lv rv)))) :
+    evalV (n+1) e = (do let lv ← evalV n a; let rv ← evalV n b; pure (f lv rv)) := by
+  funext σ
+  simp only [evalV, he, bind_run]
+  cases FnM.evalE n a σ with
+  | fuel => rfl
+  | throw t s => rfl
+  | ok mv s =>
+    simp only []
+    cases FnM.resolve mv s with
+    | fuel => rfl
+    | throw t s1 => rfl
+    | ok lv s1 =>
+      simp only []
+      cases FnM.evalE n b s1 with
+      | fuel => rfl
+      | throw t s2 => rfl
+      | ok mv2 s2 =>
+        simp only []
+        cases FnM.resolve mv2 s2 with
+        | fuel => rfl
+        | throw t s3 => rfl
+        | ok rv s3 => rfl
+
+theorem evalV_un (n : Nat) (a : Fn.FE) (f : Fn.V → Fn.V) (e : Fn.FE)
+    (he : FnM.evalE (n+1) e = (do let v ← FnM.resolve (← FnM.evalE n a); pure (FnM.MV.val (f v)))) :
+    evalV (n+1) e = (do let v ← evalV n a; pure (f v)) := by
+  funext σ
+  simp only [evalV, he, bind_run]
+  cases FnM.evalE n a σ with
+  | fuel => rfl
+  | throw t s => rfl
+  | ok mv s =>
+    simp only []
+    cases FnM.resolve mv s with
+    | fuel => rfl
+    | throw t s1 => rfl
+    | ok lv s1 => rfl
+
+/-- two sub-evaluations in sequence, combined by a function of the two values -/
+theorem ro_bin (n : Nat) (a b e : Fn.FE) (f : Fn.V → Fn.V → Fn.V) (sc : FnM.Scope) (rest : List FnM.Scope) (xs : List String)
+    (hm : evalV (n+1) e = (do let lv ← evalV n a; let rv ← evalV n b; pure (f lv rv)))
+    (hs : ∀ (c : Fn.Ctx) (s : Fn.St), Fn.evalE (n+1) e c s =
+      match Fn.evalE n a c s with
+      | .ok va s1 => (match Fn.evalE n b c s1 with
+        | .ok vb s2 => .ok (f va vb) s2
+        | .throw t s2 => .throw t s2
+        | .fuel => .fuel)
+      | .throw t s1 => .throw t s1
+      | .fuel => .fuel)
+    (iha : ∀ σ, ROInv σ xs → σ.scopes = sc :: rest → ROSim n a sc σ)
+    (ihb : ∀ σ, ROInv σ xs → σ.scopes = sc :: rest → ROSim n b sc σ)
+    (σ : FnM.St) (hI : ROInv σ xs) (hsc : σ.scopes = sc :: rest) : ROSim (n+1) e sc σ := by
+  unfold ROSim
+  rw [hm, hs]
+  simp only [bind_run]
+  rcases iha σ hI hsc with h | ⟨va, t1, h1, h1'⟩ | ⟨nm, t1, h1, h1'⟩
+  · left; rw [h]
+  · rw [h1, h1']
+    simp only []
+    rcases ihb { σ with trace := t1 } (hI.trace t1) hsc with h | ⟨vb, t2, h2, h2'⟩ | ⟨nm, t2, h2, h2'⟩
+    · left; rw [h]
+    · right; left
+      exact ⟨f va vb, t2, by rw [h2] <;> rfl, by rw [h2'] <;> rfl⟩
+    · right; right
+      refine ⟨nm, t2, by rw [h2] <;> rfl, ?_⟩
+      rw [h2'] <;> rfl
+  · right; right
+    refine ⟨nm, t1, by rw [h1] <;> rfl, ?_⟩
+    rw [h1'] <;> rfl
+
+theorem ro_un (n : Nat) (a e : Fn.FE) (f : Fn.V → Fn.V) (sc : FnM.Scope) (rest : List FnM.Scope) (xs : List String)
+    (hm : evalV (n+1) e = (do let v ← evalV n a; pure (f v)))
+    (hs : ∀ (c : Fn.Ctx) (s : Fn.St), Fn.evalE (n+1) e c s =
+      match Fn.evalE n a c s with
+      | .ok va s1 => .ok (f va) s1
+      | .throw t s1 => .throw t s1
+      | .fuel => .fuel)
+    (iha : ∀ σ, ROInv σ xs → σ.scopes = sc :: rest → ROSim n a sc σ)
+    (σ : FnM.St) (hI : ROInv σ xs) (hsc : σ.scopes = sc :: rest) : ROSim (n+1) e sc σ := by
+  unfold ROSim
+  rw [hm, hs]
+  simp only [bind_run]
+  rcases iha σ hI hsc with h | ⟨va, t1, h1, h1'⟩ | ⟨nm, t1, h1, h1'⟩
+  · left; rw [h]
+  · right; left
+    exact ⟨f va, t1, by rw [h1] <;> rfl, by rw [h1'] <;> rfl⟩
+  · right; right
+    refine ⟨nm, t1, by rw [h1] <;> rfl, ?_⟩
+    rw [h1'] <;> rfl
+
+theorem spec_add (n : Nat) (a b : Fn.FE) (c : Fn.Ctx) (s : Fn.St) :
+    Fn.evalE (n+1) (.add a b) c s =
+      match Fn.evalE n a c s with
+      | .ok va s1 => (match Fn.evalE n b c s1 with
+        | .ok vb s2 => .ok (FnM.binAdd va vb) s2
+        | .throw t s2 => .throw t s2
+        | .fuel => .fuel)
+      | .throw t s1 => .throw t s1
+      | .fuel => .fuel := by
+  rw [Fn.evalE]
+  cases Fn.evalE n a c s with
+  | fuel => rfl
+  | throw t s1 => rfl
+  | ok va s1 =>
+    simp only []
+    cases Fn.evalE n b c s1 with
+    | fuel => rfl
+    | throw t s2 => rfl
+    | ok vb s2 =>
+      simp only [FnM.binAdd]
+      cases va <;> cases vb <;> rfl
+
+theorem spec_sub (n : Nat) (a b : Fn.FE) (c : Fn.Ctx) (s : Fn.St) :
+    Fn.evalE (n+1) (.sub a b) c s =
+      match Fn.evalE n a c s with
+      | .ok va s1 => (match Fn.evalE n b c s1 with
+        | .ok vb s2 => .ok (FnM.binSub va vb) s2
+        | .throw t s2 => .throw t s2
+        | .fuel => .fuel)
+      | .throw t s1 => .throw t s1
+      | .fuel => .fuel := by
+  rw [Fn.evalE]
+  cases Fn.evalE n a c s with
+  | fuel => rfl
+  | throw t s1 => rfl
+  | ok va s1 =>
+    simp only []
+    cases Fn.evalE n b c s1 with
+    | fuel => rfl
+    | throw t s2 => rfl
+    | ok vb s2 =>
+      simp only [FnM.binSub]
+      cases h1 : Fn.toNum va <;> cases h2 : Fn.toNum vb <;> rfl
+
+theorem spec_lt (n : Nat) (a b : Fn.FE) (c : Fn.Ctx) (s : Fn.St) :
+    Fn.evalE (n+1) (.lt a b) c s =
+      match Fn.evalE n a c s with
+      | .ok va s1 => (match Fn.evalE n b c s1 with
+        | .ok vb s2 => .ok (FnM.binLt va vb) s2
+        | .throw t s2 => .throw t s2
+        | .fuel => .fuel)
+      | .throw t s1 => .throw t s1
+      | .fuel => .fuel := by
+  rw [Fn.evalE]
+  cases Fn.evalE n a c s with
+  | fuel => rfl
+  | throw t s1 => rfl
+  | ok va s1 =>
+    simp only []
+    cases Fn.evalE n b c s1 with
+    | fuel => rfl
+    | throw t s2 => rfl
+    | ok vb s2 =>
+      simp only [FnM.binLt]
+      cases h1 : Fn.toNum va <;> cases h2 : Fn.toNum vb <;> rfl
+
+theorem spec_seq (n : Nat) (a b : Fn.FE) (c : Fn.Ctx) (s : Fn.St) :
+    Fn.evalE (n+1) (.seq a b) c s =
+      match Fn.evalE n a c s with
+      | .ok va s1 => (match Fn.evalE n b c s1 with
+        | .ok vb s2 => .ok (FnM.binSeq va vb) s2
+        | .throw t s2 => .throw t s2
+        | .fuel => .fuel)
+      | .throw t s1 => .throw t s1
+      | .fuel => .fuel := by
+  rw [Fn.evalE]
+  cases Fn.evalE n a c s with
+  | fuel => rfl
+  | throw t s1 => rfl
+  | ok va s1 =>
+    simp only []
+    cases Fn.evalE n b c s1 with
+    | fuel => rfl
+    | throw t s2 => rfl
+    | ok vb s2 => rfl
+
+theorem spec_not (n : Nat) (a : Fn.FE) (c : Fn.Ctx) (s : Fn.St) :
+    Fn.evalE (n+1) (.not a) c s =
+      match Fn.evalE n a c s with
+      | .ok va s1 => .ok (.bool (!Fn.truthy va)) s1
+      | .throw t s1 => .throw t s1
+      | .fuel => .fuel := by
+  rw [Fn.evalE]
+  cases Fn.evalE n a c s <;> rfl
+
+theorem spec_val (n : Nat) (a : Fn.FE) (c : Fn.Ctx) (s : Fn.St) :
+    Fn.evalE (n+1) (.val a) c s =
+      match Fn.evalE n a c s with
+      | .ok va s1 => .ok va s1
+      | .throw t s1 => .throw t s1
+      | .fuel => .fuel := by
+  rw [Fn.evalE]
+  cases Fn.evalE n a c s <;> rfl
+
+theorem isCall_spec (σ : FnM.St) (v : Fn.V) : FnM.isCall σ v = Fn.isCallable (absSt σ) v := by
+  cases v with
+  | ref a =>
+    simp only [FnM.isCall, Fn.isCallable, absSt_obj]
+    cases σ.obj? a with
+    | none => rfl
+    | some o =>
+      simp only [Option.map_some]
+      have : (absObj o).kind = absKind o.val := rfl
+      rw [this]
+      cases o.val <;> rfl
+  | _ => rfl
+
+theorem typeofV_spec (σ : FnM.St) (v : Fn.V) : FnM.typeofV σ v = Fn.typeofV (absSt σ) v := by
+  cases v <;> simp [FnM.typeofV, Fn.typeofV, isCall_spec]
+
+/-- a read-only expression that is not an identifier evaluates to a value, never to a reference -/
+theorem ro_isVal (n : Nat) (e : Fn.FE) (hro : ro e = true) (hnv : ∀ x, e ≠ .var x) (σ : FnM.St) (mv : FnM.MV) (σ' : FnM.St)
+    (hr : FnM.evalE n e σ = .ok mv σ') : ∃ v, mv = .val v := by
+  cases n with
+  | zero => simp [FnM.evalE, FnM.outOfFuel] at hr
+  | succ n =>
+      cases e with
+      | var x => exact absurd rfl (hnv x)
+      | lit v => simp [FnM.evalE] at hr; exact ⟨_, hr.1.symm⟩
+      | this => simp only [FnM.evalE, bind_run] at hr; cases hc : FnM.curScope σ with
+        | ok sc s1 => rw [hc] at hr; simp at hr; exact ⟨_, hr.1.symm⟩
+        | throw t s1 => rw [hc] at hr; simp at hr
+        | fuel => rw [hc] at hr; simp at hr
+      | add a b | sub a b | lt a b | seq a b =>
+        simp only [FnM.evalE, bind_run] at hr
+        revert hr
+        cases FnM.evalE n a σ with
+        | fuel => simp
+        | throw t s => simp
+        | ok m1 s1 =>
+          simp only []
+          cases FnM.resolve m1 s1 with
+          | fuel => simp
+          | throw t s => simp
+          | ok lv s2 =>
+            simp only []
+            cases FnM.evalE n b s2 with
+            | fuel => simp
+            | throw t s => simp
+            | ok m2 s3 =>
+              simp only []
+              cases FnM.resolve m2 s3 with
+              | fuel => simp
+              | throw t s => simp
+              | ok rv s4 => simp only [pure_run, FnM.R.ok.injEq]; intro h; exact ⟨_, h.1.symm⟩
+      | not a | val a =>
+        simp only [FnM.evalE, bind_run] at hr
+        revert hr
+        cases FnM.evalE n a σ with
+        | fuel => simp
+        | throw t s => simp
+        | ok m1 s1 =>
+          simp only []
+          cases FnM.resolve m1 s1 with
+          | fuel => simp
+          | throw t s => simp
+          | ok lv s2 => simp only [pure_run, FnM.R.ok.injEq]; intro h; exact ⟨_, h.1.symm⟩
+      | typeof a =>
+        simp only [FnM.evalE, bind_run] at hr
+        revert hr
+        cases FnM.evalE n a σ with
+        | fuel => simp
+        | throw t s => simp
+        | ok m1 s1 =>
+          simp only []
+          cases m1 with
+          | val v =>
+            simp only [FnM.resolve, bind_run, pure_run, getSt_run, FnM.R.ok.injEq]
+            intro h; exact ⟨_, h.1.symm⟩
+          | ref r =>
+            cases r with
+            | stash b nm =>
+              simp only [bind_run]
+              cases FnM.resolve (.ref (.stash b nm)) s1 with
+              | fuel => simp
+              | throw t s => simp
+              | ok lv s2 => simp only [getSt_run, pure_run, FnM.R.ok.injEq]; intro h; exact ⟨_, h.1.symm⟩
+            | prop b nm =>
+              cases b with
+              | none => simp only [pure_run, FnM.R.ok.injEq]; intro h; exact ⟨_, h.1.symm⟩
+              | some bb =>
+                simp only [bind_run]
+                cases FnM.resolve (.ref (.prop (some bb) nm)) s1 with
+                | fuel => simp
+                | throw t s => simp
+                | ok lv s2 => simp only [getSt_run, pure_run, FnM.R.ok.injEq]; intro h; exact ⟨_, h.1.symm⟩
+      | log a =>
+        simp only [FnM.evalE, bind_run] at hr
+        revert hr
+        cases FnM.evalE n a σ with
+        | fuel => simp
+        | throw t s => simp
+        | ok m1 s1 =>
+          simp only []
+          cases FnM.resolve m1 s1 with
+          | fuel => simp
+          | throw t s => simp
+          | ok lv s2 =>
+            simp only []
+            cases FnM.tokV lv s2 with
+            | fuel => simp
+            | throw t s => simp
+            | ok tk s3 => simp only [modifySt_run, pure_run, FnM.R.ok.injEq]; intro h; exact ⟨_, h.1.symm⟩
+      | _ => simp [ro] at hro
+
+/-- GetValue through the reference of a resolved identifier: a value, the state untouched, the value ES5 reads -/
+theorem getValue_resolved (σ : FnM.St) (x : String) (xs : List String) (hx : x ∈ xs) (hI : ROInv σ xs) (j : Nat) :
+    ∃ v, FnM.refGetValue (FnM.newReference σ j x) σ = .ok v σ ∧ Fn.envGet (absSt σ) j x = .ok v (absSt σ) := by
+  have hg := getValue_ident_spec σ x (hI.vis x hx) hI.wf0 hI.nap hI.aw hI.ew hI.sr j
+  cases hs : σ.stash? j with
+  | none =>
+    refine ⟨.undef, by simp [FnM.newReference, hs, FnM.refGetValue, FnM.getBinding], ?_⟩
+    rw [← hg]; simp [FnM.newReference, hs, FnM.refGetValue, FnM.getBinding, absR]
+  | some st =>
+    cases st with
+    | obj outer o =>
+      refine ⟨getP σ o x, by simp [FnM.newReference, hs, FnM.refGetValue, objGet_run], ?_⟩
+      rw [← hg]; simp [FnM.newReference, hs, FnM.refGetValue, objGet_run, absR]
+    | dcl outer ps =>
+      refine ⟨dclGetP σ j x, by simp [FnM.newReference, hs, FnM.refGetValue, FnM.getBinding, dclGetBinding_run], ?_⟩
+      rw [← hg]; simp [FnM.newReference, hs, FnM.refGetValue, FnM.getBinding, dclGetBinding_run, absR]
+    | fn outer ps ar =>
+      refine ⟨dclGetP σ j x, by simp [FnM.newReference, hs, FnM.refGetValue, FnM.getBinding, dclGetBinding_run], ?_⟩
+      rw [← hg]; simp [FnM.newReference, hs, FnM.refGetValue, FnM.getBinding, dclGetBinding_run, absR]
+
+theorem newReference_cases (σ : FnM.St) (j : Nat) (x : String) :
+    (∃ o, FnM.newReference σ j x = .prop (some o) x) ∨ FnM.newReference σ j x = .stash j x := by
+  simp only [FnM.newReference]
+  cases σ.stash? j with
+  | none => right; rfl
+  | some st => cases st with
+    | obj outer o => left; exact ⟨o, rfl⟩
+    | dcl outer ps => right; rfl
+    | fn outer ps ar => right; rfl
+
+theorem ro_typeof (n : Nat) (a : Fn.FE) (sc : FnM.Scope) (rest : List FnM.Scope) (xs : List String)
+    (hro : ro a = true) (hid : ∀ x ∈ idents a, x ∈ xs)
+    (iha : ∀ σ, ROInv σ xs → σ.scopes = sc :: rest → ROSim n a sc σ)
+    (σ : FnM.St) (hI : ROInv σ xs) (hsc : σ.scopes = sc :: rest) : ROSim (n+1) (.typeof a) sc σ := by
+  by_cases hv : ∃ x, a = .var x
+  · -- typeof of an identifier: an unresolvable reference gives "undefined"
+    obtain ⟨x, rfl⟩ := hv
+    have hx : x ∈ xs := hid x (by simp [idents])
+    cases n with
+    | zero => left; simp [evalV, FnM.evalE, FnM.outOfFuel]
+    | succ n =>
+      have hvis := hI.vis x hx
+      have hres := resolve_spec σ x hvis hI.wf0 (σ.stashes.length + 1) sc.lexical
+      simp only [ROSim, evalV, FnM.evalE, bind_run, curScope_run σ sc rest hsc, stashFuel_run, hres, pure_run, Fn.evalE, ctxOf,
+        absSt_envs_length]
+      cases hr : Fn.envResolve (absSt σ) (σ.stashes.length + 1) sc.lexical x with
+      | none =>
+        right; left
+        exact ⟨.str "undefined", σ.trace, rfl, rfl⟩
+      | some j =>
+        obtain ⟨v, hmv, hsv⟩ := getValue_resolved σ x xs hx hI j
+        right; left
+        refine ⟨.str (FnM.typeofV σ v), σ.trace, ?_, ?_⟩
+        · simp only [refOf]
+          rcases newReference_cases σ j x with ⟨o, ho⟩ | ho
+          · rw [ho] at hmv ⊢
+            simp only [FnM.resolve, bind_run, hmv, getSt_run, pure_run]
+          · rw [ho] at hmv ⊢
+            simp only [FnM.resolve, bind_run, hmv, getSt_run, pure_run]
+        · simp only [hsv, typeofV_spec]
+  · -- typeof of anything else: the operand is a value
+    have hnv : ∀ x, a ≠ .var x := fun x h => hv ⟨x, h⟩
+    have hsA : ∀ (c : Fn.Ctx) (s : Fn.St), Fn.evalE (n+1) (.typeof a) c s =
+        match Fn.evalE n a c s with
+        | .ok va s1 => .ok (.str (Fn.typeofV s1 va)) s1
+        | .throw t s1 => .throw t s1
+        | .fuel => .fuel := by
+      intro c s
+      cases a with
+      | var x => exact absurd rfl (hnv x)
+      | _ =>
+        rw [Fn.evalE]
+        all_goals first | (intro x h; cases h) | (cases Fn.evalE n _ c s <;> rfl)
+    unfold ROSim
+    rw [hsA]
+    have hmA : evalV (n+1) (.typeof a) σ =
+        (match evalV n a σ with
+         | .ok v s1 => .ok (.str (FnM.typeofV s1 v)) s1
+         | .throw t s1 => .throw t s1
+         | .fuel => .fuel) := by
+      simp only [evalV, FnM.evalE, bind_run]
+      cases he : FnM.evalE n a σ with
+      | fuel => rfl
+      | throw t s => rfl
+      | ok mv s =>
+        obtain ⟨v, rfl⟩ := ro_isVal n a hro hnv σ mv s he
+        simp only [FnM.resolve, bind_run, pure_run, getSt_run]
+    rw [hmA]
+    rcases iha σ hI hsc with h | ⟨va, t1, h1, h1'⟩ | ⟨nm, t1, h1, h1'⟩
+    · left; rw [h]
+    · right; left
+      refine ⟨.str (FnM.typeofV { σ with trace := t1 } va), t1, by rw [h1], ?_⟩
+      rw [h1']
+      simp only [typeofV_spec]
+    · right; right
+      exact ⟨nm, t1, by rw [h1], by rw [h1'] <;> rfl⟩
+
+theorem ro_log (n : Nat) (a : Fn.FE) (sc : FnM.Scope) (rest : List FnM.Scope) (xs : List String)
+    (iha : ∀ σ, ROInv σ xs → σ.scopes = sc :: rest → ROSim n a sc σ)
+    (σ : FnM.St) (hI : ROInv σ xs) (hsc : σ.scopes = sc :: rest) : ROSim (n+1) (.log a) sc σ := by
+  have hmA : evalV (n+1) (.log a) σ =
+      (match evalV n a σ with
+       | .ok v s1 => (match FnM.tokV v s1 with
+         | .ok t s2 => .ok v { s2 with trace := s2.trace ++ [t] }
+         | .throw e s2 => .throw e s2
+         | .fuel => .fuel)
+       | .throw t s1 => .throw t s1
+       | .fuel => .fuel) := by
+    simp only [evalV, FnM.evalE, bind_run]
+    cases FnM.evalE n a σ with
+    | fuel => rfl
+    | throw t s => rfl
+    | ok mv s =>
+      simp only []
+      cases FnM.resolve mv s with
+      | fuel => rfl
+      | throw t s1 => rfl
+      | ok v s1 =>
+        simp only []
+        cases FnM.tokV v s1 with
+        | fuel => rfl
+        | throw t s2 => rfl
+        | ok tk s2 => rfl
+  have hsA : ∀ (c : Fn.Ctx) (s : Fn.St), Fn.evalE (n+1) (.log a) c s =
+      match Fn.evalE n a c s with
+      | .ok v s1 => .ok v { s1 with trace := s1.trace ++ [Fn.tokV s1 v] }
+      | .throw t s1 => .throw t s1
+      | .fuel => .fuel := by
+    intro c s
+    rw [Fn.evalE]
+    cases Fn.evalE n a c s <;> rfl
+  unfold ROSim
+  rw [hmA, hsA]
+  rcases iha σ hI hsc with h | ⟨va, t1, h1, h1'⟩ | ⟨nm, t1, h1, h1'⟩
+  · left; rw [h]
+  · right; left
+    have hI1 := hI.trace t1
+    have htk := tokV_spec { σ with trace := t1 } va hI1.cls hI1.ew
+    refine ⟨va, t1 ++ [Fn.tokV (absSt { σ with trace := t1 }) va], ?_, ?_⟩
+    · rw [h1]; simp only [htk]
+    · rw [h1']; rfl
+  · right; right
+    exact ⟨nm, t1, by rw [h1], by rw [h1'] <;> rfl⟩
+
+/-- **expr_refines_partial** — the evaluator simulation for the read-only identifier fragment (literals, `this`,
+    identifiers, + − < === !, typeof, `(0, e)`, `log(e)`): in every state satisfying `ROInv`, with otto's current scope
+    `sc`, otto's evaluation followed by GetValue and ES5's evaluation in the context read off `sc` give the same value
+    (or the same error), extend the host log by the same tokens and change nothing else – unless otto runs out of
+    fuel.  FULL STATEMENT (open): the same for every FE and FS, with the states related by an address-renaming
+    relation instead of `absSt` (the two sides allocate in different orders), by induction on fuel. -/
+theorem expr_refines_partial (sc : FnM.Scope) (rest : List FnM.Scope) (xs : List String) :
+    ∀ (n : Nat) (e : Fn.FE), ro e = true → (∀ x ∈ idents e, x ∈ xs) →
+      ∀ σ, ROInv σ xs → σ.scopes = sc :: rest → ROSim n e sc σ := by
+  intro n
+  induction n with
+  | zero => intro e _ _ σ _ _; left; simp [evalV, FnM.evalE, FnM.outOfFuel]
+  | succ n ih =>
+    intro e hro hid σ hI hsc
+    cases e with
+    | lit v => right; left; exact ⟨Fn.ofPV v, σ.trace, by simp [evalV, FnM.evalE, FnM.resolve], rfl⟩
+    | this =>
+      right; left
+      refine ⟨.ref sc.this, σ.trace, ?_, rfl⟩
+      simp [evalV, FnM.evalE, curScope_run σ sc rest hsc, FnM.resolve]
+    | var x => exact ro_var n x sc rest σ xs (hid x (by simp [idents])) hI hsc
+    | add a b =>
+      simp only [ro, Bool.and_eq_true] at hro
+      exact ro_bin n a b _ FnM.binAdd sc rest xs (evalV_bin n a b FnM.binAdd _ (by rw [FnM.evalE])) (spec_add n a b)
+        (fun σ' => ih a hro.1 (fun x hx => hid x (by simp [idents, hx])) σ')
+        (fun σ' => ih b hro.2 (fun x hx => hid x (by simp [idents, hx])) σ') σ hI hsc
+    | sub a b =>
+      simp only [ro, Bool.and_eq_true] at hro
+      exact ro_bin n a b _ FnM.binSub sc rest xs (evalV_bin n a b FnM.binSub _ (by rw [FnM.evalE])) (spec_sub n a b)
+        (fun σ' => ih a hro.1 (fun x hx => hid x (by simp [idents, hx])) σ')
+        (fun σ' => ih b hro.2 (fun x hx => hid x (by simp [idents, hx])) σ') σ hI hsc
+    | lt a b =>
+      simp only [ro, Bool.and_eq_true] at hro
+      exact ro_bin n a b _ FnM.binLt sc rest xs (evalV_bin n a b FnM.binLt _ (by rw [FnM.evalE])) (spec_lt n a b)
+        (fun σ' => ih a hro.1 (fun x hx => hid x (by simp [idents, hx])) σ')
+        (fun σ' => ih b hro.2 (fun x hx => hid x (by simp [idents, hx])) σ') σ hI hsc
+    | seq a b =>
+      simp only [ro, Bool.and_eq_true] at hro
+      exact ro_bin n a b _ FnM.binSeq sc rest xs (evalV_bin n a b FnM.binSeq _ (by rw [FnM.evalE])) (spec_seq n a b)
+        (fun σ' => ih a hro.1 (fun x hx => hid x (by simp [idents, hx])) σ')
+        (fun σ' => ih b hro.2 (fun x hx => hid x (by simp [idents, hx])) σ') σ hI hsc
+    | not a =>
+      simp only [ro] at hro
+      exact ro_un n a _ (fun v => .bool (!Fn.truthy v)) sc rest xs (evalV_un n a _ _ (by rw [FnM.evalE])) (spec_not n a)
+        (fun σ' => ih a hro (fun x hx => hid x (by simp [idents, hx])) σ') σ hI hsc
+    | val a =>
+      simp only [ro] at hro
+      exact ro_un n a _ (fun v => v) sc rest xs (evalV_un n a _ _ (by rw [FnM.evalE])) (spec_val n a)
+        (fun σ' => ih a hro (fun x hx => hid x (by simp [idents, hx])) σ') σ hI hsc
+    | typeof a =>
+      simp only [ro] at hro
+      exact ro_typeof n a sc rest xs hro (fun x hx => hid x (by simp [idents, hx]))
+        (fun σ' => ih a hro (fun x hx => hid x (by simp [idents, hx])) σ') σ hI hsc
+    | log a =>
+      simp only [ro] at hro
+      exact ro_log n a sc rest xs (fun σ' => ih a hro (fun x hx => hid x (by simp [idents, hx])) σ') σ hI hsc
+    | _ => simp [ro] at hro
+
 end OttoVerif.C01.FnRefine
